@@ -39,7 +39,16 @@ structure Cfg where
 
 def hexDigit (n : Nat) : Char := if n < 10 then Char.ofNat (48 + n) else Char.ofNat (87 + n)
 
-/-- serde_json string escaping -/
+/-- `needs_yaml_escape`: characters JSON leaves alone but a YAML stream rejects or folds -/
+def needsYamlEscape (c : Char) : Bool :=
+  (0x7f ≤ c.toNat && c.toNat ≤ 0x9f) || c.toNat = 0x2028 || c.toNat = 0x2029 || c.toNat = 0xfffe ||
+  c.toNat = 0xffff
+
+/-- `format!("\\u{:04x}", n)` for `n < 0x10000` -/
+def uEscape (n : Nat) : List Char :=
+  ['\\', 'u', hexDigit (n / 4096), hexDigit (n / 256 % 16), hexDigit (n / 16 % 16), hexDigit (n % 16)]
+
+/-- serde_json string escaping, then `yaml_quoted`'s rewrite of `needs_yaml_escape` characters -/
 def jsonEscape (c : Char) : List Char :=
   if c = '"' then ['\\', '"']
   else if c = '\\' then ['\\', '\\']
@@ -49,6 +58,7 @@ def jsonEscape (c : Char) : List Char :=
   else if c.toNat = 13 then ['\\', 'r']
   else if c.toNat = 9 then ['\\', 't']
   else if c.toNat < 32 then ['\\', 'u', '0', '0', hexDigit (c.toNat / 16), hexDigit (c.toNat % 16)]
+  else if needsYamlEscape c then uEscape c.toNat
   else [c]
 
 def jsonBody : List Char → List Char
